@@ -158,6 +158,7 @@ func (w *World) verifyFunc(p pkgT, cs *ContractSet, ct *Contract) (res *UnitResu
 	if len(ct.NoWrite) > 0 {
 		x.memFrame(ftype, fd, body)
 	}
+	x.sharedAppend(body)
 	// number loops in source pre-order (function literals excluded)
 	n := 0
 	ast.Inspect(body, func(m ast.Node) bool {
